@@ -52,6 +52,8 @@ func init() {
 		"strconv.FormatUint":                          strconvFormat,
 		"strconv.FormatInt":                           strconvFormat,
 		"strconv.Itoa":                                strconvFormat,
+		"strconv.AppendUint":                          strconvAppend,
+		"strconv.AppendInt":                           strconvAppend,
 		"strings.ContainsAny":                         stringsContainsAny,
 		"strings.Contains":                            stringsContains,
 		"strings.Split":                               stringsSplit,
@@ -698,6 +700,33 @@ func strconvFormat(e *Engine, st *State, args []Value, depth int, pos string, k 
 		return
 	}
 	k(st, sym(e.fresh(st, "fmtuint", SStr)))
+}
+
+// strconvAppend: strconv.AppendUint/AppendInt(dst, i, base). Appending to a nil destination yields the bytes of the
+// rendering FormatUint/FormatInt produce; any other destination gives unknown bytes.
+func strconvAppend(e *Engine, st *State, args []Value, depth int, pos string, k func(*State, Value)) {
+	dstNil := false
+	switch d := args[0].(type) {
+	case VNil:
+		dstNil = true
+	case VSym:
+		dstNil = d.T.S == nullB.S
+	}
+	if dstNil && len(args) == 3 {
+		strconvFormat(e, st, args[1:], depth, pos, func(st *State, v Value) {
+			if sv, ok := v.(VSym); ok && sv.T.Sort == SStr {
+				r := App(SBytes, "b.ofstr", sv.T)
+				st.fact(Not(Eq(r, nullB)))
+				k(st, sym(r))
+				return
+			}
+			k(st, sym(e.fresh(st, "appenduint", SBytes)))
+		})
+		return
+	}
+	r := e.fresh(st, "appenduint", SBytes)
+	st.fact(Not(Eq(r, nullB)))
+	k(st, sym(r))
 }
 
 func stringsContainsAny(e *Engine, st *State, args []Value, depth int, pos string, k func(*State, Value)) {
